@@ -15,8 +15,17 @@ ALSO = {
     "C03": ("C02.end_cb_once", "C11.cb_id"),
     "C04": ("C10.group_ids", "C11.unique"),
     "C05": ("C11.unique",),
+    "C10": ("C07.unknown", "C07.forgotten"),  # "an unknown name raises InvalidGroupName"
     "C13": ("C03.counter_sum", "C03.state_probe"),
 }
+
+
+class CaseTimeout(BaseException):
+    """Wall-clock watchdog of one execution (generous; its firing is 'inconclusive', never a verdict)."""
+
+
+def _on_case_alarm(signum, frame):
+    raise CaseTimeout()
 
 
 class _Sink(logging.Handler):
@@ -79,7 +88,16 @@ def run_unit(cid, tier, seed, fam, start, count):
         set_logging(debug_log)
         if debug_log:
             sit["env.debug_logging_cases"] += 1
-        res = spec.run_case(case)
+        import signal
+
+        signal.signal(signal.SIGALRM, _on_case_alarm)
+        signal.alarm(180)
+        try:
+            res = spec.run_case(case)
+        except CaseTimeout:
+            res = {"inconclusive": True, "sit": {"_case_watchdog": 1}}
+        finally:
+            signal.alarm(0)
         evals += res.get("evals", 1)
         sit.update(res.get("sit", {}))
         if res.get("inconclusive"):
@@ -88,6 +106,7 @@ def run_unit(cid, tier, seed, fam, start, count):
             sigs.add(res["sig"])
         for v in res.get("viol", []):
             if not mine(cid, v["clause"]):
+                sit["_foreign_clause." + v["clause"]] += 1  # alarms that are another property's business (its own check decides)
                 continue
             if len(viol) < 6:
                 v = dict(v)
